@@ -101,6 +101,17 @@ func TestC16(t *testing.T) {
 			if got := hookEncodeOfsNbitsStartEnd(uint16(ofs), uint16(ofs+w-1)); got != want {
 				c.Report(nil, "C16|encodeOfsNbitsStartEnd|value-mismatch", fmt.Sprintf("%s: got %#04x want %#04x", cs, got, want), cs)
 			}
+			// the same pair through the public range type, both constructors (sub-fields of wide fields such as
+			// tun_metadata or xxreg lie far above bit 31; the mask helper is the only part that is 32-bit)
+			for ci, r := range []*of.NXRange{of.NewNXRangeByOfsNBits(ofs, w), of.NewNXRange(ofs, ofs+w-1)} {
+				ctor := []string{"NewNXRangeByOfsNBits", "NewNXRange"}[ci]
+				if got := r.ToOfsBits(); got != want {
+					c.Report(nil, "C16|"+ctor+".ToOfsBits|value-mismatch|wide", fmt.Sprintf("%s: got %#04x want %#04x", cs, got, want), cs)
+				}
+				if r.GetOfs() != uint16(ofs) || r.GetNbits() != uint16(w) {
+					c.Report(nil, "C16|"+ctor+".GetOfs/GetNbits|value-mismatch|wide", fmt.Sprintf("%s: got ofs %d nbits %d", cs, r.GetOfs(), r.GetNbits()), cs)
+				}
+			}
 		}
 	}
 	c.Exhaustive("65536 offset/width pairs")
